@@ -106,6 +106,28 @@ def forward_check(body, name=None, min_calls=1, max_calls=1, check_params=True, 
                     return False, ("parameter `%s` of %s does not flow into the forwarded call at %s (arguments: %s)"
                                    % (body.local_name(p) or p, body.key, cs.loc,
                                       [o_str(body.origin(a)) for a in cs.args[1:]])), sites, cs.loc
+    if check_params:
+        # an event is handed on as it is: only views of it (to_event / by_ref / erase ...), never an event re-assembled from parts
+        PASS = ("to_event", "erase", "by_ref", "borrow", "as_ref", "deref", "clone", "into", "from")
+        for cs in sites:
+            for p in range(2, body.argc + 1):
+                if body.local_name(p) != "evt":
+                    continue
+                for a in cs.args[1:]:
+                    o = body.origin(a)
+                    if ("param", p) not in roots(o):
+                        continue
+                    x = o
+                    d = 0
+                    while d < 12:
+                        d += 1
+                        if x[0] == "param":
+                            break
+                        if x[0] == "call" and x[1].callee.get("name") in PASS and x[1].args:
+                            x = body.origin(x[1].args[0])
+                            continue
+                        return False, ("%s hands on %s instead of the event it was given (or a view of it): what the inner filter/emitter "
+                                       "sees - e.g. its extent - can differ from what the caller passed" % (body.key, o_str(o))), sites, cs.loc
     if check_return and body.local_ty(0) not in ("()", "!"):
         bad = []
         for rb in body.return_blocks():
